@@ -780,4 +780,216 @@ theorem diffs_mem (g : Nat → Rat) (N k : Nat) (h : k + 1 < N) :
   have := diffs_mem_range' g N 0 k h
   simpa using this
 
+
+
+theorem readIndices_total {α} (inv : List Int) (k : α → Nat) : ∀ (ps : List α), (∀ p ∈ ps, k p < inv.length) →
+    readIndices inv (ps.map k) = .ok (ps.map fun p => inv.getD (k p) 0) := by
+  intro ps
+  unfold readIndices
+  induction ps with
+  | nil => intro _; rfl
+  | cons p ps ih =>
+    intro h
+    have hp := h p (List.mem_cons_self)
+    have ih' := ih (fun q hq => h q (List.mem_cons_of_mem _ hq))
+    have e : inv[k p]? = some (inv.getD (k p) 0) := by
+      rw [List.getD_eq_getElem?_getD, List.getElem?_eq_getElem hp]; rfl
+    simp only [List.map_cons, List.mapM_cons, e, bind, Except.bind, pure, Except.pure] at ih' ⊢
+    rw [ih']
+
+theorem readIndices_fail {α} (inv : List Int) (k : α → Nat) : ∀ (ps : List α), (∃ p ∈ ps, inv.length ≤ k p) →
+    readIndices inv (ps.map k) = .error .index := by
+  intro ps
+  unfold readIndices
+  induction ps with
+  | nil => rintro ⟨p, hp, _⟩; cases hp
+  | cons p ps ih =>
+    rintro ⟨q, hq, hlen⟩
+    by_cases hp : inv.length ≤ k p
+    · have e : inv[k p]? = none := List.getElem?_eq_none hp
+      simp only [List.map_cons, List.mapM_cons, e, bind, Except.bind]
+    · have e : inv[k p]? = some (inv.getD (k p) 0) := by
+        rw [List.getD_eq_getElem?_getD, List.getElem?_eq_getElem (by omega)]; rfl
+      have hq' : ∃ q ∈ ps, inv.length ≤ k q := by
+        rcases List.mem_cons.mp hq with rfl | hq
+        · exact absurd hlen hp
+        · exact ⟨q, hq, hlen⟩
+      have ih' := ih hq'
+      simp only [List.map_cons, List.mapM_cons, e, bind, Except.bind, pure, Except.pure] at ih' ⊢
+      rw [ih']
+
+/-- **permutation equivariance** (sorting on): for two input orders of the same rows `get_volume_positions`
+either fails alike, refuses both, or accepts both with the same spacing and ONE function from rows to volume
+indices serving both orders — permuting the input permutes the output. -/
+theorem volumePositionsOf_perm (nrm : V3) {ps ps' : List V3} (h : ps.Perm ps') (op : Opts) (hsort : op.sort = true)
+    (hint : Option Rat) (rtol atol : Rat) :
+    (∃ e, volumePositionsOf nrm ps op hint rtol atol = .error e ∧ volumePositionsOf nrm ps' op hint rtol atol = .error e) ∨
+    (volumePositionsOf nrm ps op hint rtol atol = .ok none ∧ volumePositionsOf nrm ps' op hint rtol atol = .ok none) ∨
+    (∃ sp, ∃ f : V3 → Int, volumePositionsOf nrm ps op hint rtol atol = .ok (some (sp, ps.map f)) ∧
+      volumePositionsOf nrm ps' op hint rtol atol = .ok (some (sp, ps'.map f))) := by
+  have hu : uniqueRows ps' = uniqueRows ps := (uniqueRows_perm h).symm
+  have hl : ps'.length = ps.length := h.length_eq.symm
+  unfold volumePositionsOf
+  simp only [hu, hl, hsort, if_true, bind, Except.bind, pure, Except.pure]
+  split_ifs with h1 h2
+  · right; left; exact ⟨rfl, rfl⟩
+  · right; right; exact ⟨_, fun _ => 0, rfl, rfl⟩
+  · cases hex : examine nrm (uniqueRows ps) true op.allowMissing hint rtol atol op.enforce with
+    | error e => left; exact ⟨e, rfl, rfl⟩
+    | ok r =>
+      cases r with
+      | none => right; left; exact ⟨rfl, rfl⟩
+      | some r =>
+        obtain ⟨sp, inv⟩ := r
+        simp only []
+        by_cases hall : ∀ p ∈ ps, indexIn (uniqueRows ps) p < inv.length
+        · right; right
+          refine ⟨sp, fun p => inv.getD (indexIn (uniqueRows ps) p) 0, ?_, ?_⟩
+          · rw [readIndices_total inv _ ps hall]
+          · rw [readIndices_total inv _ ps' (fun p hp => hall p (h.mem_iff.mpr hp))]
+        · left
+          simp only [not_forall, not_lt, exists_prop] at hall
+          obtain ⟨p, hp, hlen⟩ := hall
+          refine ⟨.index, ?_, ?_⟩
+          · rw [readIndices_fail inv _ ps ⟨p, hp, hlen⟩]
+          · rw [readIndices_fail inv _ ps' ⟨p, h.mem_iff.mp hp, hlen⟩]
+
+/-! ## sorting datasets, assembling a series -/
+
+theorem idxOf?_of_mem {α} [DecidableEq α] (a : α) : ∀ (l : List α), a ∈ l → l.idxOf? a = some (l.idxOf a) := by
+  intro l
+  induction l with
+  | nil => intro h; cases h
+  | cons x xs ih =>
+    intro h
+    by_cases hx : x = a
+    · subst hx; simp [List.idxOf?, List.findIdx?_cons]
+    · have hm : a ∈ xs := by
+        rcases List.mem_cons.mp h with e | e
+        · exact absurd e.symm hx
+        · exact e
+      have := ih hm
+      simp only [List.idxOf?] at this ⊢
+      simp [List.findIdx?_cons, hx, this]
+
+/-- `np.argsort` of the distances of a stack along a line, any input order: position `r` holds where plane `r` is -/
+theorem argsort_mono {g : Nat → Rat} (hg : StrictMono g) {js : List Nat} {N : Nat} (hp : js.Perm (List.range N)) :
+    argsort (js.map g) = (List.range N).map fun r => js.idxOf r := by
+  have hlen : js.length = N := by rw [hp.length_eq, List.length_range]
+  unfold argsort
+  simp only [ranks_mono hg hp, List.length_map, hlen]
+  rw [← List.filterMap_eq_map]
+  apply List.filterMap_congr
+  intro r hr
+  exact idxOf?_of_mem r js (hp.mem_iff.mpr hr)
+
+theorem filterMap_getElem_idxOf {β} (F : Nat → β) (js : List Nat) (N : Nat) (hsub : ∀ r < N, r ∈ js) :
+    ((List.range N).map fun r => js.idxOf r).filterMap (fun i => (js.map F)[i]?) = (List.range N).map F := by
+  rw [List.filterMap_map]
+  have h : ∀ r ∈ List.range N, ((fun i => (js.map F)[i]?) ∘ fun r => js.idxOf r) r = (fun r => some (F r)) r := by
+    intro r hr
+    simp only [Function.comp]
+    exact getElem?_idxOf_map F r js (hsub r (List.mem_range.mp hr))
+  rw [List.filterMap_congr h]
+  exact congrFun (List.filterMap_eq_map (f := F)) (List.range N)
+
+
+theorem mapM_ok_of_forall {α β} (F : α → Except ErrKind β) (G : α → β) : ∀ (l : List α), (∀ a ∈ l, F a = .ok (G a)) →
+    l.mapM F = .ok (l.map G) := by
+  intro l
+  induction l with
+  | nil => intro _; rfl
+  | cons a l ih =>
+    intro h
+    have ha := h a (List.mem_cons_self)
+    have ih' := ih (fun b hb => h b (List.mem_cons_of_mem _ hb))
+    simp only [List.mapM_cons, ha, ih', List.map_cons, bind, Except.bind, pure, Except.pure]
+
+
+/-- the assembly order of a regular series is the plane order, whatever the input order -/
+theorem seriesOrder_regular {α} (F : Nat → α) {js : List Nat} {N : Nat} (hp : js.Perm (List.range N)) :
+    seriesOrder (js.map F) (js.map Int.ofNat) = .ok ((List.range N).map F) := by
+  have hlen : js.length = N := by rw [hp.length_eq, List.length_range]
+  unfold seriesOrder
+  rw [List.length_map, hlen]
+  apply mapM_ok_of_forall
+  intro i hi
+  have hi' : i ∈ js := hp.mem_iff.mpr hi
+  have hinj : Function.Injective Int.ofNat := fun a b h => Int.ofNat.inj h
+  have hm : (Int.ofNat i) ∈ js.map Int.ofNat := List.mem_map_of_mem hi'
+  rw [idxOf?_of_mem _ _ hm, idxOf_map_injective hinj]
+  simp only [getElem?_idxOf_map F i js hi']
+
+/-! ## `sort=False`: the positions are examined in the order given -/
+
+/-- the examination step without sorting on rows `f 0, f 1, …, f M` IN THIS ORDER at distances `g j` (any `g`):
+the spacing is `(g M − g 0)/M` (signed), indices are `0 … M`. -/
+theorem examine_unsorted (nrm : V3) (f : Nat → V3) (g : Nat → Rat) (hfg : ∀ j, nrm.dot (f j) = g j)
+    {M : Nat} (rtol atol : Rat) (enforce : Bool) :
+    examine nrm ((List.range (M + 1)).map f) false false none rtol atol enforce
+      = .ok (let sp := (g M - g 0) / (M : Rat)
+             let reg := (diffs ((List.range (M + 1)).map g)).all fun x => isClose x sp rtol atol
+             if reg && enforce && decide (sp < 0) then none
+             else if reg && isPerpendicular nrm ((f M).sub (f 0)) then
+               some (rabs sp, (List.range (M + 1)).map Int.ofNat) else none) := by
+  have hd : ((List.range (M + 1)).map f).map nrm.dot = (List.range (M + 1)).map g := by
+    rw [List.map_map]; apply List.map_congr_left; intro j _; exact hfg j
+  have hden : (((M + 1 : Nat) : Rat)) - 1 = (M : Rat) := by push_cast; ring
+  have h0 : 0 ∈ List.range (M + 1) := by simp
+  have hMm : M ∈ List.range (M + 1) := by simp
+  unfold examine
+  simp only [hd, Bool.false_eq_true, if_false, spacingRegular, head_mono, getLast_mono, List.length_map,
+    List.length_range, hden, Except.map, bind, Except.bind, pure, Except.pure, Nat.add_sub_cancel,
+    atRank_map f (List.range (M + 1)) 0 h0, atRank_map f (List.range (M + 1)) M hMm]
+  split_ifs <;> rfl
+
+
+theorem readIndices_range (n : Nat) : readIndices ((List.range n).map Int.ofNat) (List.range n) = .ok ((List.range n).map Int.ofNat) := by
+  have := readIndices_total ((List.range n).map Int.ofNat) (fun k : Nat => k) (List.range n)
+    (fun p hp => by simpa using hp)
+  simp only [List.map_id'] at this
+  rw [this]
+  congr 1
+  apply List.map_congr_left
+  intro k hk
+  have hk' : k < n := List.mem_range.mp hk
+  simp [List.getD_eq_getElem?_getD, hk']
+
+/-- **`sort=False`** (repaired behaviour): rows `f 0 … f M` examined IN THE GIVEN ORDER; distinct rows. -/
+theorem volumePositionsOf_unsorted (nrm : V3) (f : Nat → V3) (g : Nat → Rat) (hfg : ∀ j, nrm.dot (f j) = g j)
+    (hinj : Function.Injective f) {M : Nat} (hM : 1 ≤ M) (op : Opts) (hsort : op.sort = false)
+    (hmiss : op.allowMissing = false) (rtol atol : Rat) :
+    volumePositionsOf nrm ((List.range (M + 1)).map f) op none rtol atol
+      = .ok (let sp := (g M - g 0) / (M : Rat)
+             let reg := (diffs ((List.range (M + 1)).map g)).all fun x => isClose x sp rtol atol
+             if reg && op.enforce && decide (sp < 0) then none
+             else if reg && isPerpendicular nrm ((f M).sub (f 0)) then
+               some (rabs sp, (List.range (M + 1)).map Int.ofNat) else none) := by
+  have hnd : ((List.range (M + 1)).map f).Nodup := List.nodup_range.map hinj
+  have hlt : ¬ (uniqueRows ((List.range (M + 1)).map f)).length < ((List.range (M + 1)).map f).length := by
+    rw [uniqueRows_length_lt_iff]; exact not_not.mpr hnd
+  have hlt' : ¬ (uniqueRows ((List.range (M + 1)).map f)).length < M + 1 := by simpa using hlt
+  have hne : ¬ M + 1 = 1 := by omega
+  unfold volumePositionsOf
+  simp only [List.length_map, List.length_range, hlt', decide_false, Bool.and_false, Bool.false_eq_true, if_false, hsort,
+    hne, hmiss, examine_unsorted nrm f g hfg rtol atol op.enforce, bind, Except.bind, pure, Except.pure]
+  split_ifs <;> first | rfl | simp only [readIndices_range]
+
+
+/-- `np.diff` of an arithmetic progression is constant -/
+theorem diffs_const (g : Nat → Rat) (c : Rat) (hg : ∀ j, g (j + 1) - g j = c) : ∀ (n a : Nat), ∀ x ∈ diffs ((List.range' a n).map g), x = c := by
+  intro n
+  induction n with
+  | zero => intro a x hx; simp [diffs] at hx
+  | succ n ih =>
+    intro a x hx
+    cases n with
+    | zero => simp [List.range', diffs] at hx
+    | succ m =>
+      simp only [List.range'_succ, List.map_cons, diffs, List.mem_cons] at hx
+      rcases hx with rfl | hx
+      · exact hg a
+      · apply ih (a + 1) x
+        simpa only [List.range'_succ, List.map_cons] using hx
+
 end HdVerif.Stack
